@@ -294,8 +294,8 @@ class C17Property:
                 case = payload
                 reply = corr.parse_reply(block)
                 n_cmp += 1
-                # the derived `expression` is compared when every symbol keeps its assumptions (SymPy evaluates
-                # constructors by assumptions; see the oracle's `attributes` clause)
+                # free symbols of the derived `expression`: equality when every symbol keeps its assumptions and
+                # nothing is merged, inclusion otherwise (SymPy may cancel or simplify by assumptions)
                 asm_ok = all(conv.asms[int(a.rsplit("/", 1)[1])] == conv.asms[int(b.rsplit("/", 1)[1])] for a, b in reply.mapping)
                 images = dict(reply.mapping)
                 injective = len({images.get(sy, sy) for sy in reply.collect}) == len(set(reply.collect))
@@ -438,7 +438,7 @@ MANIFEST = {
         "Proof about a model + differential tie. The Lean model (Model/C17Rename.lean, import-free, executable) follows "
         "rename_symbols/__collect_symbols, Python's dict semantics, the attrs converters and natural_sorting line by line; "
         "symbols are (name, assumptions), expressions are trees over symbols/constants/uninterpreted operators, two variant "
-        "switches stand for the two parts of fix 137fbcb. 29 kernel-checked theorems (Props/C17.lean), all for ALL models, "
+        "switches stand for the two parts of fix 137fbcb. 30 kernel-checked theorems (Props/C17.lean), all for ALL models, "
         "maps and (where stated) variants: every attribute of the result is the original with ONE map sigma applied "
         "(expressions by xreplace, dictionary keys by sigma, then dict/converter semantics; amplitudes/components are a "
         "permutation of the mapped originals; parameter and kinematic-variable keys are exactly the images; values and "
@@ -472,7 +472,8 @@ MANIFEST = {
         "xreplace on built-in nodes, the HelicityModel.expression property (PoolSum.evaluate + amplitude substitution; its value "
         "is an input of the model), CPython dict/sorted. Domain restrictions (each counted in the evidence): ASCII names, "
         "numbers in names <= 15 digits, no name chunk that float() accepts; no bound PoolSum index among the collected symbols; "
-        "existing_symbols unambiguous (the source iterates a set); structural comparison of the derived `expression` and the "
-        "numeric clause only for maps under which every symbol keeps its assumptions (SymPy simplifies by assumptions)."
+        "existing_symbols unambiguous (the source iterates a set); the derived `expression` is compared through its free symbols "
+        "(its tree is re-derived and re-evaluated by SymPy) and by value: the numeric clause runs for maps under which every "
+        "symbol keeps its assumptions (SymPy simplifies by assumptions)."
     ),
 }
